@@ -186,16 +186,16 @@ def expected_fields(st, topname, forknames, tz, version, ns):
     chain = [topname] + forknames
     exp["rpname"] = chain[0][:15] if ns else None
     now = st["now"]
-    exp["timestamp"] = {b"%d" % (now + d) for d in (0, 1, 2)}
+    exp["timestamp"] = {b"%d" % (now + d) for d in (-1, 0, 1, 2)}
     exp["ms"] = re.compile(rb"^\d{3}$")
     exp["us"] = re.compile(rb"^\d{6}$")
     os.environ["TZ"] = envd.get(b"TZ", b"UTC").decode()
     time.tzset()
     def fmts(f):
-        return {time.strftime(f, time.localtime(now + d)).encode() for d in (0, 1, 2)}
+        return {time.strftime(f, time.localtime(now + d)).encode() for d in (-1, 0, 1, 2)}
     exp["datetime"] = fmts("%Y-%m-%dT%H:%M:%S%z")
     exp["dt_date"] = fmts("%Y-%m-%d %H")
-    exp["dt_epoch"] = {b"%d" % (now + d) for d in (0, 1, 2)}
+    exp["dt_epoch"] = {b"%d" % (now + d) for d in (-1, 0, 1, 2)}
     exp["dt_zone"] = fmts("%z")
     exp["version"] = version
     exp["env_all"] = b",".join(envs)
